@@ -4,7 +4,7 @@
 // This file contains comments only; it adds no code to any build.
 package epochkghandler
 
-//@ const MAXMSG = 1048576
+//@ const MAXMSG = 2147483647
 //@ pred wfShares(m) := m != nil && len(m.Shares) <= MAXMSG && (forall i :: 0 <= i && i < len(m.Shares) ==> m.Shares[i] != nil)
 //@ pred wfResult(r) := r != nil && (forall i :: 0 <= i && i < len(r.PublicKeyShares) ==> r.PublicKeyShares[i] != nil)
 //@
@@ -46,7 +46,7 @@ package epochkghandler
 //@   invariant@2 forall j :: 0 <= j && j < len(keys) ==> keys[j] != nil
 //@   invariant@2 len(keys) <= rangeindex + 1
 //@ func (*DecryptionKeyShareHandler).aggregateDecryptionKeySharesFromDB
-//@   requires handler != nil && wfResult(pureDKGResult) && len(pureDKGResult.PublicKeyShares) == dkgSize(keyperConfigIndex) && len(pureDKGResult.PublicKeyShares) <= 1048576 && pureDKGResult.Threshold >= 1 && pureDKGResult.Threshold <= 1048576
+//@   requires handler != nil && wfResult(pureDKGResult) && len(pureDKGResult.PublicKeyShares) == dkgSize(keyperConfigIndex) && pureDKGResult.Threshold >= 1 && pureDKGResult.Threshold <= 9223372036854775807
 //@   assigns mapof(map[string][]*epochkg.EpochSecretKeyShare), mapof(map[string]*shcrypto.EpochSecretKey)
 //@   ensures ret1 == nil ==> wfKG(ret0)
 //@   invariant wfKG(epochKG) && len(epochKG.PublicKeyShares) == len(pureDKGResult.PublicKeyShares)
